@@ -239,6 +239,8 @@ C07_Viol(r) ==
     \/ (r.a = "alloc_huge" \/ (r.a = "prep_reserve" /\ Has(r.args, "huge"))) /\ (r.o.res = "ok" \/ (r.v # "panicking" /\ r.o.res # "err"))
     \* the collection whose reserve overflowed has its previous length and capacity
     \/ r.a = "prep_reserve" /\ Has(r.args, "huge") /\ (r.o.plen # r.exp.x.len \/ r.o.pcap < r.o.plen)
+    \* a reserve that overflows, and any request beyond the capacity of a fixed-capacity vector, is refused
+    \/ r.a = "vec_extend" /\ VecStep(r) /\ (Has(r.args, "huge") \/ (r.args.fixed /\ r.args.grows)) /\ r.o.res # "err"
     \* a vector whose growth failed is unchanged (same buffer, length, capacity; its elements are covered by C02 below)
     \/ r.a = "vec_extend" /\ VecStep(r) /\ r.o.res = "err" /\ (r.o.vaddr # r.o.oaddr \/ r.o.vlen # r.o.plen \/ r.o.vcap # r.o.pcap)
     \* after a failure: earlier allocations intact, invariants hold, nothing leaked or released twice ...
@@ -312,6 +314,13 @@ C15_Viol(r) ==
               adv < r.o.len \/ adv > r.o.len + (r.exp.x.eal - 1) + (r.o.ma - 1)
          \/ r.o.len > 0 /\ r.o.addr % r.exp.x.eal # 0
          \/ r.o.damaged # <<>>
+    \* alloc_try_with_mut whose closure unwinds: nothing was finalised - the chunk that was current keeps its position and a
+    \* different current chunk is empty
+    \/ r.a = "try_with" /\ r.args.mut /\ Has(r.args, "pan") /\ r.args.pan /\ r.exp.res = "panic" /\
+         \/ r.o.res # "panic"
+         \/ r.o.damaged # <<>>
+         \/ r.o.pp[1] # 0 /\ ~\E k \in 1..Len(r.o.chunks) : r.o.chunks[k][1] = r.o.pp[1] /\ r.o.chunks[k][5] = r.o.pp[2]
+         \/ r.o.cur # 0 /\ r.o.chunks[r.o.cur][1] # r.o.pp[1] /\ r.o.chunks[r.o.cur][6] # 0
     \* the one-shot helpers alloc_iter_mut(_rev): exactly the yielded elements (reversed for rev) whatever the size hint said;
     \* the position advances by the contents plus padding -- in the chunk that was current, or in a later chunk that was empty
     \* alloc_fmt_mut / alloc_cstr_fmt_mut: exactly the written text (plus one NUL), position advanced by it plus padding
@@ -391,6 +400,8 @@ Init == /\ done = TRUE
         /\ PrintT(<<"N_EXIT", Cardinality({i \in Idx : IsExit(Rec[i])})>>)
         /\ PrintT(<<"N_REALLOC", Cardinality({i \in Idx : AllocLike(Rec[i]) /\ Rec[i].a # "alloc" /\ Ok(Rec[i])})>>)
         /\ PrintT(<<"N_NEWCHUNK", Cardinality({i \in Idx : IsStep(Rec[i]) /\ NAllocEv(Rec[i]) = 1})>>)
+        /\ PrintT(<<"N_TRYWITH_PANIC", Cardinality({i \in Idx : Rec[i].a = "try_with" /\ Rec[i].o.res = "panic"})>>)
+        /\ PrintT(<<"N_VEC_REFUSED", Cardinality({i \in Idx : Rec[i].a = "vec_extend" /\ VecStep(Rec[i]) /\ Rec[i].o.res = "err"})>>)
         /\ PrintT(<<"N_GROWHELPER", Cardinality({i \in Idx : Rec[i].a \in {"iter_grow", "fmt_grow"} /\ Rec[i].o.len > 0})>>)
         /\ PrintT(<<"N_VEC", Cardinality({i \in Idx : VecStep(Rec[i])})>>)
         /\ PrintT(<<"N_VEC_RELOC", Cardinality({i \in Idx : Rec[i].a = "vec_extend" /\ VecStep(Rec[i]) /\ Rec[i].o.res = "ok" /\ Rec[i].o.oaddr # 0
